@@ -49,22 +49,25 @@ extern MPT_STRUCT(buffer) *mpt_array_reserve(MPT_STRUCT(array) *arr, size_t len,
 	if ((flags & MPT_ENUM(BufferShared))
 	 || (flags & MPT_ENUM(BufferImmutable))) {
 		MPT_STRUCT(buffer) *reserve;
+		size_t used = 0;
 		
-		if (!(reserve = _mpt_buffer_alloc(len, 0))) {
+		/* compatible content is kept: reserved space never is below it (same as for distinct buffer) */
+		if (buf
+		 && (old == traits)
+		 && !(flags & MPT_ENUM(BufferNoCopy))) {
+			used = buf->_used;
+			if (old) {
+				used -= used % old->size;
+			}
+		}
+		if (!(reserve = _mpt_buffer_alloc(len < used ? used : len, 0))) {
 			return 0;
 		}
 		reserve->_content_traits = traits;
 		if (buf) {
-			size_t used = buf->_used;
-			if (old) {
-				used -= used % old->size;
-			}
 			/* copy compatible content */
 			if ((old == traits)
 			 && !(flags & MPT_ENUM(BufferNoCopy))) {
-				if (used > len) {
-					used = len;
-				}
 				if (used) {
 					/* raw copy reports zero, typed copy number of copied elements */
 					long set = mpt_buffer_set(reserve, traits, 0, buf + 1, used);
